@@ -285,3 +285,18 @@ JOBS['C19'] = [
      'variants': [{'BUF': 0}, {'BUF': 2, 'ROWS': 4, 'COLS': 10}, {'BUF': 3, 'ROWS': 4, 'COLS': 10}], 'expect_reach': ['end'],
      'timeout': {'quick': 280, 'thorough': 1700}, 'max_steps': 60000000, 'validate': {'quick': 4, 'thorough': 8}},
 ]
+
+# ---------------------------------------------------------------- C09
+META['C09'] = {
+    'bounds': {'quick': 'mechanism: 4 symbolic typed keys, two nested pushes of 2 symbolic keys, pushes of 10000 bytes into the 4096-byte queue; relation: one change command from a 20-entry menu with symbolic inserted text (ASCII and 2-byte), symbolic count/register prefix, then . or N. (N<=3) versus retyping; a register executed with @ versus typing its contents (including a . inside the macro)',
+               'thorough': 'two preceding commands before the change'},
+    'outside': 'recorded commands >= 4 KiB (excluded by the property); ^A completion; filters',
+    'assumptions': ['two runs of the real main() are compared inside one path (symx_isolated); equality of the written file, of the cursor (marker) and of the unnamed register (put at the end)'],
+}
+JOBS['C09'] = [
+    {'name': 'push_queue', 'harness': 'c09_push.c', 'units': ['term', 'sbuf'], 'defs': {}, 'expect_reach': ['end', 'overflow-checked']},
+    {'name': 'repeat_vs_retype', 'harness': 'c09_rel.c', 'units': 'ALL', 'defs': {'quick': {'MODE': 0}, 'thorough': {'MODE': 0, 'NCNT': 3, 'TXTN': 2}}, 'expect_reach': ['end'],
+     'timeout': {'quick': 280, 'thorough': 1700}, 'max_steps': 80000000, 'validate': {'quick': 6, 'thorough': 12}},
+    {'name': 'execute_vs_type', 'harness': 'c09_rel.c', 'units': 'ALL', 'defs': {'MODE': 1}, 'expect_reach': ['end'],
+     'timeout': {'quick': 280, 'thorough': 1700}, 'max_steps': 80000000, 'validate': {'quick': 6, 'thorough': 12}},
+]
